@@ -317,6 +317,19 @@ class HeaderPacketReceiver(Elaboratable):
         last_enable = Signal()
         m.d.ss     += last_enable.eq(self.enable)
 
+        # A link-down event or USB reset has to restart our advertisement no matter which link command
+        # we're in the middle of sending when it arrives. We can only safely re-initialize ourselves from
+        # our dispatch state; so we'll remember the event until we get there.
+        link_went_down         = Signal()
+        restart_pending        = Signal()
+        sequence_reset_pending = Signal()
+        m.d.comb += link_went_down.eq((last_enable & ~self.enable) | self.usb_reset)
+
+        with m.If(link_went_down):
+            m.d.ss += restart_pending.eq(1)
+        with m.If(self.usb_reset):
+            m.d.ss += sequence_reset_pending.eq(1)
+
         #
         # Header Packet Buffers
         #
@@ -457,8 +470,11 @@ class HeaderPacketReceiver(Elaboratable):
             # DISPATCH_COMMAND -- the state in which we identify any pending link commands necessary,
             # and then move to the state in which we'll send them.
             with m.State("DISPATCH_COMMAND"):
+                restart_required = Signal()
+                m.d.comb += restart_required.eq(restart_pending | link_went_down)
 
-                with m.If(self.enable):
+                # (Never dispatch a command in the cycle we're re-initializing; its parameters would be stale.)
+                with m.If(self.enable & ~restart_required):
                     # NOTE: the order below is important; changing it can easily break things:
                     # - ACKS must come before credits, as we must send an LGOOD before we send our initial credits.
                     # - LBAD must come after ACKs and credit management, as all scheduled ACKs need to be
@@ -491,16 +507,18 @@ class HeaderPacketReceiver(Elaboratable):
 
                 # Once we've become disabled, we'll want to prepare for our next enable.
                 # This means preparing for our advertisement, by:
-                with m.If((last_enable & ~self.enable) | self.usb_reset):
+                with m.If(restart_required):
                     m.d.ss += [
+                        # -We've now handled this event.
+                        restart_pending       .eq(0),
+
                         # -Resetting our pending ACKs to 1, so we perform an sequence number advertisement
                         #  when we're next enabled.
                         acks_to_send          .eq(1),
 
-                        # -Decreasing our next sequence number; so we maintain a continuity of sequence numbers
-                        #  without counting the advertising one. This doesn't seem to be be strictly necessary
-                        #  per the spec; but seem to make analyzers happier, so we'll go with it.
-                        next_header_to_ack    .eq(next_header_to_ack - 1),
+                        # -Advertising the sequence number of the last header we've received; any LGOODs we
+                        #  hadn't gotten around to sending are superseded by this advertisement.
+                        next_header_to_ack    .eq(expected_sequence_number - 1),
 
                         # - Clearing all of our buffers.
                         read_pointer          .eq(0),
@@ -519,8 +537,9 @@ class HeaderPacketReceiver(Elaboratable):
                     ]
 
                     # If this is a USB Reset, also reset our sequences.
-                    with m.If(self.usb_reset):
+                    with m.If(self.usb_reset | sequence_reset_pending):
                         m.d.ss += [
+                            sequence_reset_pending    .eq(0),
                             expected_sequence_number  .eq(0),
                             next_header_to_ack        .eq(-1)
                         ]
@@ -544,8 +563,9 @@ class HeaderPacketReceiver(Elaboratable):
                     m.d.comb += dequeue_ack         .eq(1)
                     m.d.ss   += next_header_to_ack  .eq(next_header_to_ack + 1)
 
-                    # If this was the last ACK we had to send, move back to our dispatch state.
-                    with m.If(acks_to_send == 1):
+                    # If this was the last ACK we had to send -- or we need to restart our advertisement --
+                    # move back to our dispatch state.
+                    with m.If((acks_to_send == 1) | restart_pending | link_went_down):
                         m.next = "DISPATCH_COMMAND"
 
 
@@ -566,8 +586,9 @@ class HeaderPacketReceiver(Elaboratable):
                     m.d.comb += dequeue_credit_issue  .eq(1)
                     m.d.ss   += next_credit_to_issue  .eq(next_credit_to_issue + 1)
 
-                    # If this was the last credit we had to issue, move back to our dispatch state.
-                    with m.If(credits_to_issue == 1):
+                    # If this was the last credit we had to issue -- or we need to restart our advertisement --
+                    # move back to our dispatch state.
+                    with m.If((credits_to_issue == 1) | restart_pending | link_went_down):
                         m.next = "DISPATCH_COMMAND"
 
 
